@@ -183,6 +183,26 @@ def run(chk):
         ok, dv = close(np.asarray(kk(jnp.asarray(X1), jnp.asarray(X2))), want, 1e-12)
         if not ok:
             oracle_bad.append(dict(what=f"{name} is not pointwise", expected=want.tolist()))
+    # argument types: integer-typed hyper-parameters (Python ints, jnp int arrays) in quasiseparable sums / products, either operand order
+    Xs = jnp.asarray(np.sort(X1))
+    for name, mk in [("SHO(int)+0.3*Exp", lambda: (qs.SHO(omega=2, quality=3), 0.3 * qs.Exp(1.5))),
+                     ("0.3*Exp+SHO(int)", lambda: (0.3 * qs.Exp(1.5), qs.SHO(omega=2, quality=3))),
+                     ("SHO(jnp int)+Matern52", lambda: (qs.SHO(omega=jnp.asarray(2), quality=jnp.asarray(3)), qs.Matern52(jnp.asarray(1.2)))),
+                     ("2*SHO(int)+Celerite", lambda: (2 * qs.SHO(omega=2, quality=3), qs.Celerite(1.1, 0.2, 0.5, 1.3))),
+                     ("SHO(int)*Matern32", lambda: (qs.SHO(omega=2, quality=3), qs.Matern32(jnp.asarray(0.9))))]:
+        n_eval += 1
+        try:
+            k1_, k2_ = mk()
+            comb = (k1_ * k2_) if "*Matern32" in name else (k1_ + k2_)
+            K1_, K2_ = np.asarray(k1_(Xs, Xs)), np.asarray(k2_(Xs, Xs))
+            want = K1_ * K2_ if "*Matern32" in name else K1_ + K2_
+            for op_, got in (("pointwise", np.asarray(comb(Xs, Xs))), ("to_symm_qsm", np.asarray(comb.to_symm_qsm(Xs).to_dense()))):
+                ok, dv = close(got, want, 1e-12)
+                if not ok:
+                    oracle_bad.append(dict(what=f"{name}: {op_} value differs from the arithmetic on the operands (integer-typed parameters)",
+                                           expected=want.tolist(), observed=got.tolist(), X=np.asarray(Xs).tolist()))
+        except Exception as e:  # noqa: BLE001
+            oracle_bad.append(dict(what=f"{name} raises {type(e).__name__}: {str(e)[:80]}"))
     # mixing: never a quasiseparable kernel
     kq = qs.Matern32(jnp.asarray(1.0))
     for name, f in [("qs + dense", lambda: kq + km), ("dense + qs", lambda: km + kq), ("qs * dense", lambda: kq * km), ("dense * qs", lambda: km * kq),
